@@ -11,15 +11,18 @@ LEVEL = "fault_enumeration"
 RULE = ("fault enumeration: for each base scenario (pair, chain of 3, diamond fan-in, shifted cycle, weak loop, "
         "trigger chain) a fault-free run counts the requests (setup_done, each step, each get_data) of every "
         "simulator; then a fault is injected at EVERY request index of every simulator, for each kind (exception in "
-        "the handler; connection close = process gone) and transport (local: exception; in-memory remote: both), under fifo/lifo/picks schedules and with the other simulators' "
+        "the handler; connection close = process gone; close whose next write is answered with a reset) and transport "
+        "(local: exception; in-memory remote: all three); plus a sampled real-process tier (three `cmd` simulators "
+        "over TCP, one fails with os._exit or an exception at request 0..5: run() ends within a wall budget, every "
+        "other process finalizes once and exits, loop closed, no descriptor leak, under fifo/lifo/picks schedules and with the other simulators' "
         "pending replies either released or withheld during shutdown; plus Hypothesis-drawn (scenario, schedule, "
         "fault) triples. Oracle under the controlled loop: run() returns or raises (an idle loop is a hang, exactly), "
         "virtual time <= stop time-outs, every other simulator finalized exactly once and never stepped after its "
         "finalize, loop closed, no open transport, no pending task. non-trivial = fault at request index >= 1 with "
         ">= 1 other simulator; distinct = distinct (scenario, schedule, fault) hashes")
 ASSUMPTIONS = [
-    "process death is modelled by closing the in-memory transport from the simulator side (the real-process tier is "
-    "not built; OS-level effects such as partial writes are out of reach, see DESIGN 7)",
+    "process death is modelled by closing the in-memory transport from the simulator side; the real-process tier "
+    "is sampled and uses wall-clock budgets (90 s, a time-out is re-run once and only a repeated one counts)",
     "one fault per run",
 ]
 
@@ -89,7 +92,14 @@ def analyse(case, res):
                                "shutdown." + case.get("schedule", {}).get("shutdown", "release")]
 
 
-check_case = schedprops.make_check_case(analyse)
+_check_sim = schedprops.make_check_case(analyse)
+
+
+def check_case(case, acc, holder=None):
+    if case.get("real"):
+        return check_real(case, acc)
+    return _check_sim(case, acc, holder)
+
 
 SCHEDULES = [{}, {"policy": "lifo"}, {"picks": [1, 2, 0, 1, 2, 1, 0, 2]}]
 
@@ -118,6 +128,152 @@ def request_counts(scn):
     return counts
 
 
+# ---------------------------------------------------------------- real-process tier (sampled, wall clock)
+
+class _WallTimeout(BaseException):
+    pass
+
+
+def run_real_case(case):
+    """three `cmd` simulators as real processes over TCP: A -> B, C alone; one of them fails."""
+    import glob
+    import os
+    import shutil
+    import signal
+    import sys
+    import tempfile
+    import time
+    import warnings
+    import mosaik
+    from loguru import logger
+    logger.remove()
+    logs = []
+    logger.add(lambda m: logs.append(m.record["level"].name), level="ERROR")
+    warnings.simplefilter("ignore")
+    d = tempfile.mkdtemp(prefix="c14real_", dir=os.environ.get("MVF_SCRATCH"))
+    script = os.path.join(os.path.dirname(os.path.dirname(os.path.abspath(__file__))), "remote_sim.py")
+    env = {"PYTHONPATH": os.pathsep.join(p for p in sys.path if p)}
+    cfg = {"P": {"cmd": f"%(python)s {script} -l critical %(addr)s", "env": env}}
+    res = {"outcome": None, "elapsed": None, "alive_after": [], "finalized": {}, "loop_closed": None, "dir": d}
+    fds0 = len(os.listdir("/proc/self/fd"))
+    world = None
+
+    def on_alarm(sig, frm):
+        raise _WallTimeout()
+    old = signal.signal(signal.SIGALRM, on_alarm)
+    remaining = signal.alarm(0)
+    try:
+        signal.alarm(90)
+        world = mosaik.World(cfg, skip_greetings=True, mosaik_config={"start_timeout": 60, "stop_timeout": 10})
+        ents = {}
+        for sid in ("A", "B", "C"):
+            kw = {}
+            if sid == case["sim"]:
+                kw = {"die_req": case["req"], "die_kind": case["kind"]}
+            ents[sid] = world.start("P", sim_id=sid, case_dir=d, **kw).M.create(1)[0]
+        world.connect(ents["A"], ents["B"], "a")
+        t0 = time.time()
+        try:
+            world.run(until=3, print_progress=False)
+            res["outcome"] = "returned"
+        except _WallTimeout:
+            res["outcome"] = "hang"
+        except BaseException as e:  # noqa
+            res["outcome"] = "raised:" + type(e).__name__
+        res["elapsed"] = time.time() - t0
+        res["loop_closed"] = world.loop.is_closed()
+        res["error_logged"] = "ERROR" in logs
+    except _WallTimeout:
+        res["outcome"] = res["outcome"] or "hang_in_setup"
+    finally:
+        signal.alarm(0)
+        signal.signal(signal.SIGALRM, old)
+        if remaining:
+            signal.alarm(remaining)
+    # the surviving simulator processes must exit by themselves
+    pids = {}
+    for f in glob.glob(os.path.join(d, "pid_*")):
+        try:
+            pids[os.path.basename(f)[4:]] = int(open(f).read())
+        except ValueError:
+            pass
+    deadline = time.time() + 10
+    alive = dict(pids)
+    while alive and time.time() < deadline:
+        for sid, pid in list(alive.items()):
+            if not os.path.exists(f"/proc/{pid}") or open(f"/proc/{pid}/stat").read().split()[2] == "Z":
+                alive.pop(sid)
+        time.sleep(0.05)
+    res["alive_after"] = sorted(alive)
+    for sid, pid in alive.items():
+        try:
+            os.kill(pid, 9)
+        except OSError:
+            pass
+    for sid in ("A", "B", "C"):
+        f = os.path.join(d, f"fin_{sid}")
+        res["finalized"][sid] = len(open(f).read().splitlines()) if os.path.exists(f) else 0
+    rf = os.path.join(d, f"req_{case['sim']}")
+    reached = [l.split()[0] for l in open(rf).read().splitlines()] if os.path.exists(rf) else []
+    res["fault_reached"] = str(case["req"]) in reached
+    try:
+        if world is not None and not world.loop.is_closed():
+            world.shutdown()
+    except BaseException:  # noqa
+        pass
+    res["fd_delta"] = len(os.listdir("/proc/self/fd")) - fds0
+    shutil.rmtree(d, ignore_errors=True)
+    return res
+
+
+def check_real(case, acc):
+    res = run_real_case(case)
+    if res["outcome"] in ("hang", "hang_in_setup"):
+        res2 = run_real_case(case)           # wall-clock verdicts are re-run once
+        if res2["outcome"] not in ("hang", "hang_in_setup"):
+            acc.record(case, True, ["real.inconclusive_timeout"])
+            return []
+        res = res2
+    fails = []
+    shape = f"real|{case['kind']}|req{case['req']}"
+    if not res.get("fault_reached") and res["outcome"] == "returned":
+        acc.record(case, False, ["real.fault_not_reached"])
+        return []
+    if res["outcome"] in ("hang", "hang_in_setup"):
+        fails.append(Failure("C14.hang", f"C14.hang|{shape}", f"run() did not end within 90 s (twice); {case}"))
+    else:
+        if res["outcome"] == "returned" and not res.get("error_logged"):
+            fails.append(Failure("C14.silent", f"C14.silent|{shape}", f"run() returned without raising or logging an error; {case}"))
+        for sid in ("A", "B", "C"):
+            if sid == case["sim"]:
+                continue
+            n = res["finalized"].get(sid, 0)
+            if n != 1:
+                fails.append(Failure("C14.not_stopped" if n == 0 else "C14.stopped_twice",
+                                     f"C14.{'not_stopped' if n == 0 else 'stopped_twice'}|{shape}",
+                                     f"real process {sid} was finalized {n} times after {case['sim']} failed; {case}"))
+        if res["alive_after"]:
+            fails.append(Failure("C14.process_left", f"C14.process_left|{shape}",
+                                 f"simulator processes {res['alive_after']} still alive 10 s after run() ended; {case}"))
+        if res["loop_closed"] is False:
+            fails.append(Failure("C14.loop_open", f"C14.loop_open|{shape}", f"world.loop not closed; {case}"))
+        if res["fd_delta"] > 0:
+            fails.append(Failure("C14.fd_leak", f"C14.fd_leak|{shape}", f"{res['fd_delta']} file descriptors more than before the case; {case}"))
+    acc.record(case, case["req"] >= 1, ["real." + case["kind"], "real.outcome." + str(res["outcome"]).split(":")[0]])
+    for f in fails:
+        f["case"] = case
+    return acc.triage(fails)
+
+
+def real_cases(tier):
+    for sim in ("A", "B", "C"):
+        for req in (0, 1, 2, 3, 5):
+            for kind in ("exit", "raise"):
+                if tier == "quick" and (req in (3, 5) and sim == "C"):
+                    continue
+                yield {"real": True, "sim": sim, "req": req, "kind": kind}
+
+
 def shards(tier, seed):
     return schedprops.std_shards(PROP, tier, seed)
 
@@ -128,7 +284,7 @@ def shard(prop, tier, seed, shard, nshards):
     for name, scn in base_scenarios():
         counts = request_counts(scn)
         for sm in scn["sims"]:
-            kinds = ["raise"] if sm.get("transport") != "mem" else ["raise", "close"]
+            kinds = ["raise"] if sm.get("transport") != "mem" else ["raise", "close", "reset"]
             for req in range(counts.get(sm["sid"], 0)):
                 for kind in kinds:
                     for sched in (SCHEDULES if tier == "thorough" else SCHEDULES[:2]):
@@ -141,13 +297,21 @@ def shard(prop, tier, seed, shard, nshards):
                             for f in check_case(case, acc):
                                 if len(acc.failures) < 30:
                                     acc.failures.append(f)
+    # real processes over TCP (sampled; wall-clock budgets, verdicts re-run once)
+    for j, rc in enumerate(real_cases(tier)):
+        if j % nshards != shard or acc.out_of_time():
+            continue
+        for f in check_case(rc, acc):
+            if len(acc.failures) < 30:
+                acc.failures.append(f)
+
     from hypothesis import strategies as st
 
     @st.composite
     def hcase(draw):
         c = draw(gen.cases(min_sims=2, debug_ok=False))
         sm = draw(st.sampled_from(c["scenario"]["sims"]))
-        kind = draw(st.sampled_from(["raise"] if sm.get("transport") != "mem" else ["raise", "close"]))
+        kind = draw(st.sampled_from(["raise"] if sm.get("transport") != "mem" else ["raise", "close", "reset"]))
         c["faults"] = [{"sim": sm["sid"], "req": draw(st.integers(0, 8)), "kind": kind}]
         c["schedule"]["shutdown"] = draw(st.sampled_from(["release", "hold"]))
         return c
